@@ -5,7 +5,7 @@ PROP = "C02"
 PROPS_FILE = "props/C02.v"
 COQ_FILES = ["gen/Gen.v", "proofs/SnaProofs.v", "model/Sender.v", "proofs/SenderProofs.v", "model/RPQ.v", "proofs/RPQProofs.v",
              "model/RQ.v", "proofs/RQProofs.v", "model/TimerFsm.v", "proofs/TimerProofs.v", "proofs/RPQWordProofs.v",
-             "model/Live.v", "proofs/LiveSender.v", "proofs/LiveProofs.v", "props/C02.v"]
+             "model/Live.v", "proofs/LiveSender.v", "proofs/LiveProofs.v", "proofs/LiveReach.v", "props/C02.v"]
 TRUSTED_BASE = [
     "Coq 8.16.1 kernel; vm_compute only in Examples; no native_compute",
     "hand-written models Sender.v (T3 branch, retransmission selection, admission / probe), RPQ.v (receive bitmap), RQ.v (admission at zero "
@@ -19,10 +19,10 @@ TRUSTED_BASE = [
 ASSUMPTIONS = [
     "PARTIAL: proved are the ingredients (T3 never gives up; T3 marks everything outstanding; the lowest outstanding chunk is always "
     "retransmittable; the probe path; the receiver always takes the lowest missing TSN and gap fills at zero credit; acknowledgements never "
-    "grow the outstanding byte count; cwnd >= MTU) AND their composition: from any state satisfying the link invariant LInv every "
+    "grow the outstanding byte count; cwnd >= MTU) AND their composition: from any state satisfying the link invariant LInv - which is proved to hold in EVERY reachable state of the two-endpoint system under "
+    "arbitrary loss / duplication / delay / reordering of DATA and SACKs (LiveReach.v) - every "
     "fault-free T3 round advances the cumulative ack by >= 1 chunk (2^32 wrap included), the genuine SACK is never rejected, the invariant "
-    "is re-established, and the in-flight queue is empty after at most n rounds. Not proved: that LInv is preserved by every other event "
-    "(it is shown to hold in the all-lost state for every window and initial TSN), pending (not yet sent) data beyond the probe lemma, and "
+    "is re-established, and the in-flight queue is empty after at most n rounds. Not proved: pending (not yet sent) data beyond the probe lemma, FORWARD-TSN / stream resets in the composed system, and "
     "the wall-clock bound (each round <= one RTO <= RTO.max by C19), which is checked on the implementation in virtual time.",
     "hypotheses of theorems 9-11 = hypotheses of the property: reliable chunks of at most one MTU; positive window credit when the lowest "
     "outstanding chunk arrives (application reads, messages fit); the retransmission gate admits one MTU-sized chunk",
